@@ -698,6 +698,7 @@ NATIVES = [
     (R(r"Chiplets::u32xor"), n_chiplets_bitwise("xor")),
     (R(r"Arguments::<'_>::\w+(?:::<.*>)?|core::fmt::rt::.*|Argument::<'_>::\w+(?:::<.*>)?"), n_opaque),
     (R(r"<(?:system::)?ContextId as From<u32>>::from|<u32 as Into<(?:system::)?ContextId>>::into"), lambda i, a, d, m: _ctxid(a[0])),
+    (R(r"(?:core::hint::|std::hint::)?must_use::<.*>"), n_identity),
     (R(r"<.* as Into<.*>>::into|<.* as From<.*>>::from"), n_identity),
 ]
 
